@@ -39,3 +39,26 @@ func (date *SerializableDate) UnmarshalJSON(data []byte) error {
 
 	return nil
 }
+
+// MarshalYAML implements the Marshaler interface of the YAML packages.
+func (date SerializableDate) MarshalYAML() (interface{}, error) {
+	return date.Format(time.DateOnly), nil
+}
+
+// UnmarshalYAML implements the Unmarshaler interface of the YAML packages: without it the value is decoded
+// into the embedded time.Time, which only takes full timestamps.
+func (date *SerializableDate) UnmarshalYAML(unmarshal func(interface{}) error) error {
+	var value string
+	if err := unmarshal(&value); err != nil {
+		return fmt.Errorf("unable to parse date from YAML: %w", err)
+	}
+
+	parsedDate, err := time.Parse(time.DateOnly, value)
+	if err != nil {
+		return fmt.Errorf("unable to parse date from YAML: %w", err)
+	}
+
+	date.Time = parsedDate
+
+	return nil
+}
